@@ -240,14 +240,38 @@ def cancellation_and_timeout(rep: Report, prog: Program) -> None:
     if n_cancel < 12:
         raise AnalysisError(f"C13: only {n_cancel} cancellation exits found")
 
+    rep.rule("R13.6", "what users raise to abort is what the runners catch: the documented alias AbortRetry is (a subclass of) AbortRetryError")
+    from .foundations import alias_is_class
+
+    alias_is_class(rep, "R13.6", prog, "redress.errors", "AbortRetry", "AbortRetryError")
+    rep.floor("R13.6", 1)
+
     rep.rule("R13.5", "_call_with_timeout re-raises what the worker raised unchanged, except the documented future-timeout -> TimeoutError mapping")
     fi = prog.func("redress.policy.runner.sync_core:_call_with_timeout")
     kinds = ("CancelledError", "KeyboardInterrupt", "SystemExit", "AbortRetryError", "OtherException", "TimeoutError")
 
+    def is_result_call(ev) -> bool:
+        f = ev.node.ast.func if isinstance(ev.node.ast, ast.Call) else None
+        return ev.kind == "call" and ((ev.lib() or "").endswith(".submit().result") or (isinstance(f, ast.Attribute) and f.attr == "result" and not any(t.kind in ("repo", "ctor", "callback") for t in ev.targets)))
+
     def raises(ev, cfg):
-        if ev.kind == "call" and (ev.lib() or "").endswith(".submit().result"):
+        if is_result_call(ev):
             return kinds
         return ()
+
+    worker_pool(rep, "R13.5", prog, fi)
+    # an operation run inside a hand-made worker (thread target / closure): whatever catches its exceptions there
+    # must catch BaseException, or KeyboardInterrupt / SystemExit / CancelledError die in the worker
+    opname = fi.positional_params()[0] if fi.positional_params() else "func"
+    for sub_f in _nested(fi):
+        for n in ast.walk(sub_f.node):
+            if isinstance(n, ast.Try) and any(isinstance(c, ast.Call) and isinstance(c.func, ast.Name) and c.func.id == opname for b in n.body for c in ast.walk(b)):
+                rep.instance("R13.5", f"{sub_f.qual}|worker-handler")
+                classes = [c for h in n.handlers for c in cfgs(prog).kinds.handler_classes(h.type, sub_f)]
+                if "BaseException" in classes:
+                    rep.ok("R13.5")
+                else:
+                    rep.fail("R13.5", f"{sub_f.qual.split(':')[1]}|worker-drops-base-exceptions", f"{sub_f.qual}: the operation runs in a worker whose handler catches only {classes}: KeyboardInterrupt / SystemExit / CancelledError raised by the operation are lost in the worker instead of propagating unchanged", where=sub_f.where(n), function=sub_f.qual)
 
     seen = set()
     for p in engine(prog).paths(fi, raises=raises, key="c13"):
@@ -265,3 +289,45 @@ def cancellation_and_timeout(rep: Report, prog: Program) -> None:
             rep.fail("R13.5", f"_call_with_timeout|{k}->{p.exit[1]}", f"_call_with_timeout turns {k} from the operation into {p.exit[1]}", where=fi.where(), function=fi.qual, path=p.describe())
     if len(seen) < len(kinds):
         raise AnalysisError(f"R13.5: only kinds {sorted(seen)} explored")
+
+
+def worker_pool(rep: Report, rid: str, prog: Program, fi=None) -> None:
+    """each timed attempt runs on an executor of its own, created in the invocation that submits it: a hung attempt can
+    then neither occupy a worker the next attempt needs nor leave it queued and cancelled without ever being invoked.
+    Looks at every `.submit(...)` in the sync runner module (wherever the timeout helper lives today)."""
+    cands = [f for f in prog.funcs.values() if f.module.name == "redress.policy.runner.sync_core" or (fi is not None and f is fi)]
+    found = 0
+    for fi in cands:
+      subs = [n for n in prog._own_nodes(fi.node) if isinstance(n, ast.Call) and isinstance(n.func, ast.Attribute) and n.func.attr == "submit"]
+      found += len(subs)
+      for n in subs:
+          rep.instance(rid, f"_call_with_timeout|executor@{n.lineno}")
+          recv = n.func.value
+          local_ctor = False
+          if isinstance(recv, ast.Name):
+              binds = [a.value for a in prog._own_nodes(fi.node) if isinstance(a, ast.Assign) and len(a.targets) == 1 and isinstance(a.targets[0], ast.Name) and a.targets[0].id == recv.id]
+              binds += [it.context_expr for w in prog._own_nodes(fi.node) if isinstance(w, ast.With) for it in w.items if isinstance(it.optional_vars, ast.Name) and it.optional_vars.id == recv.id]
+              local_ctor = len(binds) == 1 and isinstance(binds[0], ast.Call) and ast.unparse(binds[0].func).split(".")[-1] in ("ThreadPoolExecutor", "ProcessPoolExecutor")
+          elif isinstance(recv, ast.Call):
+              local_ctor = ast.unparse(recv.func).split(".")[-1] in ("ThreadPoolExecutor", "ProcessPoolExecutor")
+          if local_ctor:
+              rep.ok(rid)
+          else:
+              rep.fail(rid, f"_call_with_timeout|shared-executor|{ast.unparse(recv)[:30]}", f"{fi.qual}: the attempt is submitted to `{ast.unparse(recv)}`, which is not an executor created for this attempt: attempts that hang keep its workers busy, later attempts are queued, time out and are cancelled without the operation ever being invoked (sync and async runs then differ)", where=fi.where(n), function=fi.qual)
+    if not found:
+        threads = [n for f in cands for n in prog._own_nodes(f.node) if isinstance(n, ast.Call) and ast.unparse(n.func).split(".")[-1] == "Thread"]
+        if threads:
+            # no pool at all: a thread made for the attempt is a worker of its own (what the worker does with the
+            # operation's exceptions is judged by the caller of this rule)
+            rep.instance(rid, f"_call_with_timeout|thread@{threads[0].lineno}")
+            rep.ok(rid)
+            return
+        raise AnalysisError("no executor.submit(...) found in the sync runner: the attempt-timeout mechanism changed beyond what this rule understands")
+
+
+def _nested(fi):
+    out = []
+    for s_ in fi.nested.values():
+        out.append(s_)
+        out.extend(_nested(s_))
+    return out
